@@ -75,8 +75,8 @@ CLAIMED = {
              "bytes vs Python codecs; watchdog for termination. Known finding: a leading BOM is not skipped when loading text directly.",
         ref="DESIGN.md 5/C18", tech="Rocq proof (detection; termination under a decoder contract; constant regenerated from source) + differential correspondence vs Python codecs + watchdog"),
     "C15": dict(
-        text="16 theorems. PARSER, all token lists: every DocumentEnd step empties the anchor table and (unless keep_tags) the tag table; renumbering (raising the anchor counter by d shifts every id by d); tail simulation; C15_composition: if 'A' and 'B' are each accepted token streams then A DocumentEnd B is accepted with events(A) followed by events(B), B's anchor ids shifted by the number of anchored nodes of A - also for parse_all, for any number of streams, and closed under gluing. SCANNER, generic over the input, all reachable states: every character-level scanner is a frame (leaves simple keys, flow level, implicit-mapping stack, queue alone); skeleton invariant (|simple keys| = flow level + 1, indent chain, length sc_ifms = flow level) preserved by fetch_next_token, hence between documents (flow level 0) there is no flow state left; after a document marker the skeleton is the post-StreamStart configuration. Missing: character-level locality tokens(A...B) = tokens(A) DocumentEnd shifted tokens(B); keep_tags = true composition. Tie/oracle: accepted streams of the C01 space concatenated 2-4 at a time with '...' lines must parse to the parts' events with anchor ids renumbered (two back-ends); regression streams of the repaired classes (4c68b1d, e9e1eb4, 3018bbd, ad74b3e); cross-document alias probes through iterator and loader. No open known finding.",
-        ref="DESIGN.md 5/C15", tech='Rocq proof (composition theorem on token streams; scanner skeleton invariant and marker reset for all reachable states) + concatenation oracle on implementation + differential correspondence'),
+        text="28 theorems. PARSER, all token lists: every DocumentEnd step empties the anchor table and (unless keep_tags) the tag table; renumbering (raising the anchor counter by d shifts every id by d); tail simulation; C15_composition: if 'A' and 'B' are each accepted token streams then A DocumentEnd B is accepted with events(A) followed by events(B), B's anchor ids shifted by the number of anchored nodes of A - also for parse_all, for any number of streams, and closed under gluing. SCANNER, generic over the input, all reachable states: every character-level scanner is a frame (leaves simple keys, flow level, implicit-mapping stack, queue alone); skeleton invariant (|simple keys| = flow level + 1, indent chain, length sc_ifms = flow level) preserved by fetch_next_token, hence between documents (flow level 0) there is no flow state left; after a document marker the skeleton is the post-StreamStart configuration. SCANNER, POSITION SHIFT (relational proof over every scanner function, string input): two runs on the same remaining text whose states differ only by a constant offset of index, line and token count deliver the same tokens and the same error, shifted (fetch_next_token, fetch_more_tokens, next_token, scan_all, all fuels); TAIL INDEPENDENCE: from the state behind a document marker line the scanner delivers what it delivers on the rest of the text alone, minus StreamStart, shifted by where it stands (also stated for a text X and the k-th delivered token); the parser commutes with the shift; TEXT LEVEL: if A and B are each accepted and scanning A...B reaches the boundary having delivered tokens(A) minus StreamEnd and DocumentEnd (named hypothesis boundary_reached, discharged in the Examples, not in general), then run_str(A ++ '...' ++ B) is accepted with events(A) followed by events(B), anchor ids renumbered. Missing: boundary_reached in general (every scalar scanner ends at a marker line as at end of input), the '---' boundary, keep_tags = true composition. Tie/oracle: accepted streams of the C01 space concatenated 2-4 at a time with '...' lines must parse to the parts' events with anchor ids renumbered (two back-ends); regression streams of the repaired classes (4c68b1d, e9e1eb4, 3018bbd, ad74b3e); cross-document alias probes through iterator and loader. No open known finding.",
+        ref="DESIGN.md 5/C15", tech='Rocq proof (composition theorem on token streams; scanner skeleton invariant and marker reset for all reachable states; relational proof that the whole scanner commutes with a position shift, tail independence at a document boundary) + concatenation oracle on implementation + differential correspondence'),
     "C20": dict(
         text="16 theorems over a model of derive(Hash)/Eq, OrderedFloat, hash_str_as_yaml_string and the raw-entry lookups, for ALL nodes, "
              "mappings, probe strings and every hasher finish function: equal nodes have equal hash streams (incl. borrowed/owned/marked "
